@@ -510,6 +510,14 @@ def comprehension(it, e, frame, kind):
             if kind == "set":
                 return MutSet(same.as_set())
             return GenResult([Chunk(same)])
+        if kind in ("list", "gen") and not g.ifs and not isinstance(elt, Sym) and kind_of(elt) is None:
+            # [f(x) for x in src] with engine-side (non-term) elements, e.g. bound methods: a lazily indexed view of the same length
+            def at(k, _g=g, _e=e, _view=view):
+                fr = Frame(frame.closure, {}, frame)
+                fr.globals = frame.globals
+                it.assign(_g.target, _view.at(k), fr)
+                return it.eval(_e.elt, fr)
+            return IterView(view.length_, at, "comprehension")
         sc = SymComp(it, view, ivar, cond, elt, elt_is_var, kind)
         if kind == "gen":
             return sc
